@@ -132,6 +132,28 @@ def head_content_facts():
             if head.count(L) != expected:
                 problems.append(f"payloads {k1}, {k2}: line {L!r} emitted {head.count(L)} times, "
                                 f"expected {expected} (equal content once, different content never merged)")
+    # names are a function of the rendered content only: not of the dependency render mode,
+    # not of invisible nodes inside the payload
+    import htmltools
+    from htmltools import HTMLDependency
+
+    def mk_nested():
+        return [tags.title("n"), HTMLDependency("inner", "1.0", script={"src": "i.js"})]
+    n_default = head_content(*mk_nested()).name
+    assert htmltools.html_dependency_render_mode == "invisible"
+    htmltools.html_dependency_render_mode = "json"
+    try:
+        n_json = head_content(*mk_nested()).name
+        n_json_plain = head_content(tags.title("a")).name
+    finally:
+        htmltools.html_dependency_render_mode = "invisible"
+    if n_default != n_json:
+        problems.append("head_content name of the same payload differs between dependency render modes")
+    if n_json_plain != names["title-a"]:
+        problems.append("head_content name of title-a differs in json render mode")
+    want_nested = "headcontent_" + hashlib.sha1(TagList(*mk_nested()).get_html_string().encode("utf-8")).hexdigest()
+    if n_default != want_nested:
+        problems.append(f"head_content name with an invisible node in the payload is {n_default}, documented form is {want_nested}")
     for key in names:
         want = "headcontent_" + hashlib.sha1(rendered[key].encode("utf-8")).hexdigest()
         if names[key] != want:
